@@ -1,13 +1,28 @@
 ------------------------------ MODULE MCDBFTRec ------------------------------
-EXTENDS DBFTRec
+(* Model-checking instances of DBFTRec.  Besides the runs from the protocol's initial state there are runs that START IN
+   VIEW 1 (InitV1): validator 3 sent its Commit in view 0, validators 0, 1, 2 changed to view 1 on their three ChangeViews.
+   That state is reachable - ReachSpec replays the 13 steps that lead to it with the model's own actions and TLC checks that
+   they are all enabled and end exactly there (MC_Rec_reach.cfg) - so everything TLC finds from it is a behaviour of the
+   protocol; starting there puts the situations recovery is about (commits of two views, validators in different views)
+   within a few steps instead of twenty. *)
+EXTENDS DBFTRec, Sequences
 SilentNone == {{}}
 SilentAny  == {S \in SUBSET Val : Cardinality(S) <= F}
 SilentBackup == {{0}}             \* Height = 1: primaries are 1, 0, 3, ...; validator 0 is a backup in view 0
 SilentPrimary == {{PrimaryOf(0)}} \* the first primary silent from the start
-SilentLast == {{3}}
+Req0 == {0}
 Req2 == {2}
 Req3 == {3}
-Req0 == {0}
+Req02 == {0, 2}
 ReqAll == Val
 ReqNone == {}
+
+CV1 == {[from |-> u, nv |-> 1] : u \in {0, 1, 2}}
+V1st == [v \in Val |-> IF v = 3 THEN [Fresh EXCEPT !.prep = {1, 2, 3}, !.cmt = {[from |-> 3, lv |-> 0, sv |-> 0]}]
+                       ELSE [Fresh EXCEPT !.view = 1, !.lcv = CV1]]
+V1msgs == {Msg("PrepareRequest", 1, 0), Msg("PrepareResponse", 2, 0), Msg("PrepareResponse", 3, 0), Msg("Commit", 3, 0),
+           Msg("ChangeView", 0, 1), Msg("ChangeView", 1, 1), Msg("ChangeView", 2, 1)}
+InitV1 == st = V1st /\ msgs = V1msgs /\ silent = {} /\ sc = 0 /\ rc = 0
+SpecV1 == InitV1 /\ [][Next]_vars
+
 ==============================================================================
